@@ -102,6 +102,9 @@ def run_property(ctx, pid):
     ctx.level = "proof"
     low = pid.lower()
     status = vlib.proof_status(pid, extra_targets=["C04/Extract.v"])
+    if any("No rule to make target" in p for p in status["problems"]):
+        # another stream removed a scratch .v file between coq_makefile and make: build again
+        status = vlib.proof_status(pid, extra_targets=["C04/Extract.v"])
     ctx.proof_gate(status)
     drv = vlib.build_ocaml_driver("c04_driver", os.path.join(vlib.COQ, "extracted"),
                                   os.path.join(HERE, "driver", "c04_driver.ml"), only=["c04_model"])
